@@ -237,6 +237,9 @@ bool StepScript(InterpreterEnv& env)
     }
 
     if (env.successor_script.size()) {
+        // the size limit applies to every script that is evaluated, not only to the first one
+        if (env.successor_script.size() > MAX_SCRIPT_SIZE)
+            return set_error(serror, SCRIPT_ERR_SCRIPT_SIZE);
         env.sigscript_executed = true;
         env.sigscript_pushonly = script.IsPushOnly();
         script = env.successor_script;
